@@ -5,7 +5,7 @@ Never commits anything in /repo.  usage: mutation_matrix.py [<id>...]"""
 import json, os, re, subprocess, sys, time
 
 ROOT = "/verif"
-EXTRA = {"C16-a": ["C09"], "C17-a": ["C03"], "C01-b": ["C10"], "C17-b": ["C15"], "C06-b": ["C08"], "C06-c": ["C16"], "C10-c": ["C01"], "C02-c": ["C01"], "C13-d": ["C01"], "C16-d": ["C02"], "C02-d": ["C01"]}
+EXTRA = {"C16-a": ["C09"], "C17-a": ["C03"], "C01-b": ["C10"], "C17-b": ["C15"], "C06-b": ["C08"], "C06-c": ["C16"], "C10-c": ["C01"], "C02-c": ["C01"], "C13-d": ["C01"], "C16-d": ["C02"], "C02-d": ["C01"], "C01-e": ["C16"]}
 
 
 def sh(cmd, **kw):
